@@ -96,15 +96,21 @@ def later_ok():
 ORDINARY = ['select a, (select max(b) from (select c from (select d from t where x in (1, (2))) u) v), case when f(g(h(1))) then (((1))) end from w where a = [1]; select 2',
             'select foo(bar(x), 1) y, t1.c from t1 x, (select c from t2 where d = 1 order by c) z where x.k = z.k -- c\n group by 1',
             'select a, b from t', 'create procedure p() begin if a then update t set b = f(c) where d > 1; end if; end']
-def snapshot():
-    # what ordinary calls give: the trees (classes and nesting), the pieces and three formattings
+def snapshot(full=True):
+    # what ordinary calls give: the trees (classes and nesting); full: also the pieces and three formattings
+    if not full:
+        return [shape(sqlparse.parse(t)) for t in ORDINARY]
     return [(shape(sqlparse.parse(t)), sqlparse.split(t), sqlparse.format(t, reindent=True), sqlparse.format(t, reindent_aligned=True, keyword_case='upper'),
              sqlparse.format(t, strip_comments=True, use_space_around_operators=True)) for t in ORDINARY]
 BEFORE = snapshot()        # at the start of the process, before any pathological call
 _later_ok = later_ok
-def later_ok():
+_calls = [0]
+def later_ok(full=None):
     r = _later_ok()
-    if r is True and snapshot() != BEFORE:
+    _calls[0] += 1
+    if full is None:
+        full = _calls[0] %% 8 == 0          # the trees after every case, everything after every eighth case and after the soak
+    if r is True and (snapshot() != BEFORE if full else snapshot(False) != [b[0] for b in BEFORE]):
         # history: an ordinary call after the failures of this process must give what the same call gave before them
         return 'ordinary calls give different results than before the pathological calls of this process'
     return r
@@ -203,7 +209,7 @@ for kind, depth, limit, entry, opts in cases:
         res = 'recursion-limit-changed:%%d' %% sys.getrecursionlimit()
     sys.setrecursionlimit(3000)
     try:
-        later = later_ok()
+        later = later_ok(True if entry == 'soak' else None)
     except Exception as e:
         later = 'raised ' + type(e).__name__
     out.append([res, later])
@@ -286,8 +292,10 @@ def run(ctx):
         outs = list(ex.map(go, chunks))
     for chunk, (rc, out, err) in zip(chunks, outs):
         lines = [json.loads(l) for l in out.strip().split('\n') if l.strip()]
+        drifted, seen = False, []
         for case, r in zip(chunk, lines):
             kind, depth, limit, entry, opts = case
+            seen.append(case)
             ctx.evaluations += 1
             ctx.nontrivial.add((kind, depth, limit, entry, json.dumps(opts, sort_keys=True)))
             ctx.count('outcome:' + str(r[0]))
@@ -295,7 +303,13 @@ def run(ctx):
             if r[0] not in ('ok', 'SQLParseError'):
                 ctx.fail('outcome is neither a valid result nor SQLParseError', {'kind': kind, 'depth': depth, 'limit': limit, 'entry': entry, 'options': opts},
                          observed=r[0], required='ok or SQLParseError')
-            if r[1] is not True:
+            if isinstance(r[1], str) and r[1].startswith('ordinary calls give different results'):
+                # a failure of the history: the input is the sequence of calls of this process up to here (reported once per process; replay runs the sequence)
+                if not drifted:
+                    drifted = True
+                    ctx.fail('a later ordinary call does not work', {'kind': kind, 'depth': depth, 'limit': limit, 'entry': entry, 'options': opts,
+                                                                     'history': [list(c) for c in chunk[:len(seen)]]}, observed=r[1], required=True)
+            elif r[1] is not True:
                 ctx.fail('a later ordinary call does not work', {'kind': kind, 'depth': depth, 'limit': limit, 'entry': entry, 'options': opts},
                          observed=r[1], required=True)
         if len(lines) < len(chunk):
@@ -310,12 +324,13 @@ def run(ctx):
 
 def replay(ctx, payload):
     c = payload['input']
-    src = SCRIPT % {'repo': REPO, 'cases': [(c['kind'], c['depth'], c['limit'], c['entry'], c.get('options') or {})]}
-    p = subprocess.run([PY, '-c', src], stdout=subprocess.PIPE, stderr=subprocess.PIPE, text=True, timeout=600)
+    cases = [tuple(h) for h in c['history']] if c.get('history') else [(c['kind'], c['depth'], c['limit'], c['entry'], c.get('options') or {})]
+    src = SCRIPT % {'repo': REPO, 'cases': cases}
+    p = subprocess.run([PY, '-'], input=src, stdout=subprocess.PIPE, stderr=subprocess.PIPE, text=True, timeout=1500)
     lines = [json.loads(l) for l in p.stdout.strip().split('\n') if l.strip()]
-    if not lines:
+    if len(lines) < len(cases):
         return True
-    return lines[0][0] not in ('ok', 'SQLParseError') or lines[0][1] is not True
+    return lines[-1][0] not in ('ok', 'SQLParseError') or lines[-1][1] is not True
 
 
 def replay_known(ctx, k):
